@@ -423,7 +423,8 @@ def main(argv=None):
                 mod.setup_worker({"tier": tier, "seed": seed, "worker": 0, "nworkers": 1})
             except Exception:
                 pass
-        small, evals = minimise(mod, case, b, max_evals=250 if tier == "quick" else 1500)
+        max_evals = getattr(mod, "MINIMISE_EVALS", {"quick": 250, "thorough": 1500})[tier]
+        small, evals = minimise(mod, case, b, max_evals=max_evals)
         recs = [r for r in check_single(mod, small) if bucket_of(r) == b] or [item["rec"]]
         ent = classify_known(pid, small, recs[0], known)
         if ent is not None:
